@@ -228,7 +228,7 @@ def run(ctx):
         return [dict(), dict(ignore_rank=True), dict(ignore_residuals=True),
                 dict(ignore_rank=True, ignore_residuals=True)][i % 4]
 
-    nper = 1 if ctx.tier == "quick" else 3
+    nper = 1 if ctx.tier == "quick" else 10
     for system in SYSTEMS:
         nv = H.nonvanishing(system)
         rows_sys = rel_rows[system]
